@@ -42,6 +42,26 @@ func uninterp[T any](name string, args ...any) T { var z T; return z }
 //@ trusted "stringer-generated table lookup: the result is never the empty string"
 //@ ensures len(r0) >= 1
 
+// IsBoolNode reports whether n is a node that denotes a predicate: a
+// comparison, connective, starts-with, like_regex, exists, ! or is unknown.
+// Spec function (used by contracts of package exec).
+
+//@ func IsBoolNode
+//@ ghost
+//@ inline
+
+func IsBoolNode(n Node) bool {
+	switch n := n.(type) {
+	case *BinaryNode:
+		return n.Operator() <= BinaryStartsWith
+	case *UnaryNode:
+		return n.Operator() <= UnaryIsUnknown
+	case *RegexNode:
+		return true
+	}
+	return false
+}
+
 // ---------------------------------------------------------------------------
 // wfAST: structural facts about parser-produced trees that the executor
 // relies on. They are stated as (trusted) postconditions of the getters; the
@@ -83,21 +103,21 @@ func uninterp[T any](name string, args ...any) T { var z T; return z }
 //@ pure
 //@ trusted "wfAST: binary operators other than .decimal() have a left operand"
 //@ ensures n.Operator() != BinaryDecimal ==> r0 != nil
-//@ ensures (n.Operator() == BinaryAnd || n.Operator() == BinaryOr) ==> r0.Next() == nil && (is[*BinaryNode](r0) || is[*UnaryNode](r0) || is[*RegexNode](r0))
+//@ ensures (n.Operator() == BinaryAnd || n.Operator() == BinaryOr) ==> r0.Next() == nil && IsBoolNode(r0)
 
 //@ func (*BinaryNode).Right
 //@ props C05
 //@ pure
 //@ trusted "wfAST: binary operators other than subscripts and .decimal() have a right operand"
 //@ ensures n.Operator() != BinaryDecimal && n.Operator() != BinarySubscript ==> r0 != nil
-//@ ensures (n.Operator() == BinaryAnd || n.Operator() == BinaryOr) ==> r0.Next() == nil && (is[*BinaryNode](r0) || is[*UnaryNode](r0) || is[*RegexNode](r0))
+//@ ensures (n.Operator() == BinaryAnd || n.Operator() == BinaryOr) ==> r0.Next() == nil && IsBoolNode(r0)
 
 //@ func (*UnaryNode).Operand
 //@ props C05
 //@ pure
 //@ trusted "wfAST: unary operators other than the datetime methods have an operand"
 //@ ensures n.Operator() < UnaryDateTime ==> r0 != nil
-//@ ensures (n.Operator() == UnaryNot || n.Operator() == UnaryIsUnknown || n.Operator() == UnaryFilter) ==> r0.Next() == nil && (is[*BinaryNode](r0) || is[*UnaryNode](r0) || is[*RegexNode](r0))
+//@ ensures (n.Operator() == UnaryNot || n.Operator() == UnaryIsUnknown || n.Operator() == UnaryFilter) ==> r0.Next() == nil && IsBoolNode(r0)
 
 //@ func (*RegexNode).Operand
 //@ props C05
